@@ -24,7 +24,7 @@ PY
 go build -overlay $W/plain/overlay.json -o $W/plain/hmsworker ./cmd/hmsworker 2>&1 | grep -v '^go: found'
 bin/rewrite -repo /repo -out "$PWD/$W/sched" -shim "$PWD/shim/vsched" -extra "$PWD/shim/extra" -sched "homescript/runtime,homescript/interpreter,v3/homescript" >/dev/null || exit 1
 go build -tags sched -overlay $W/sched/overlay.json -o $W/sched/hmsworker ./cmd/hmsworker 2>&1 | grep -v '^go: found'
-bin/rewrite -repo /repo -out "$PWD/$W/mapiter" -shim "$PWD/shim/vsched" -extra "$PWD/shim/extra" -sched "homescript/runtime,homescript/interpreter,v3/homescript" -maps "homescript" >/dev/null || exit 1
+bin/rewrite -repo /repo -out "$PWD/$W/mapiter" -shim "$PWD/shim/vsched" -extra "$PWD/shim/extra" -sched "homescript/runtime,homescript/interpreter,v3/homescript" -maps "all" >/dev/null || exit 1
 go build -tags sched -overlay $W/mapiter/overlay.json -o $W/mapiter/hmsworker ./cmd/hmsworker 2>&1 | grep -v '^go: found'
 rm -rf $W
 echo setup done
